@@ -59,6 +59,74 @@ func (g *Gen) typedWrite(c int, k string) Op {
 	}
 }
 
+
+// C10: every write command against a key of the type it suits, whose content is known, as the ONLY
+// thing that happens between WATCH and EXEC — including writes that leave the value as it was
+// (same value stored again, zero increment, removal of something absent, empty append)
+type watchCase struct {
+	setup [][]string
+	write []string
+}
+
+func c10Table() []watchCase {
+	str := [][]string{{"SET", "k", "hello"}}
+	num := [][]string{{"SET", "k", "10"}}
+	lst := [][]string{{"RPUSH", "k", "a", "b", "c", "b"}}
+	hsh := [][]string{{"HSET", "k", "f1", "1", "f2", "x"}}
+	set := [][]string{{"SADD", "k", "m1", "m2"}, {"SADD", "o", "m2", "m3"}}
+	ttl := [][]string{{"SET", "k", "v", "EX", "1000"}}
+	oth := [][]string{{"SET", "k", "hello"}, {"SET", "o", "other"}}
+	lst2 := [][]string{{"RPUSH", "k", "a", "b"}, {"RPUSH", "o", "x"}}
+	none := [][]string{{"SET", "o", "other"}}
+	var t []watchCase
+	add := func(setup [][]string, writes ...[]string) {
+		for _, w := range writes {
+			t = append(t, watchCase{setup, w})
+		}
+	}
+	add(str, []string{"SET", "k", "hello"}, []string{"SET", "k", "new"}, []string{"SET", "k", "v", "XX"}, []string{"SET", "k", "v", "NX"}, []string{"SET", "k", "v", "KEEPTTL"},
+		[]string{"SETNX", "k", "v"}, []string{"SETEX", "k", "100", "hello"}, []string{"PSETEX", "k", "100000", "v"}, []string{"GETSET", "k", "hello"}, []string{"GETDEL", "k"},
+		[]string{"APPEND", "k", ""}, []string{"APPEND", "k", "x"}, []string{"SETRANGE", "k", "0", ""}, []string{"SETRANGE", "k", "0", "h"}, []string{"SETRANGE", "k", "1", "E"},
+		[]string{"SETBIT", "k", "1", "1"}, []string{"SETBIT", "k", "0", "1"}, []string{"SETBIT", "k", "100", "0"}, []string{"BITFIELD", "k", "SET", "u8", "0", "104"},
+		[]string{"BITFIELD", "k", "SET", "u8", "0", "1"}, []string{"BITFIELD", "k", "INCRBY", "u8", "0", "0"}, []string{"BITFIELD", "k", "GET", "u8", "0"},
+		[]string{"MSET", "k", "hello"}, []string{"MSET", "o", "1", "k", "2"}, []string{"MSETNX", "k", "1", "o", "2"}, []string{"GETEX", "k"}, []string{"GETEX", "k", "PERSIST"},
+		[]string{"GETEX", "k", "EX", "100"}, []string{"INCR", "k"}, []string{"LPUSH", "k", "x"}, []string{"HSET", "k", "f", "v"}, []string{"SADD", "k", "m"},
+		[]string{"DEL", "k"}, []string{"UNLINK", "k"}, []string{"TOUCH", "k"}, []string{"RENAME", "k", "k"}, []string{"COPY", "k", "k"}, []string{"BITOP", "NOT", "k", "k"},
+		[]string{"BITOP", "AND", "k", "k", "k"}, []string{"BITOP", "OR", "k", "k", "nokey"}, []string{"EXPIRE", "k", "100"}, []string{"EXPIRE", "k", "100", "XX"}, []string{"EXPIRE", "k", "100", "NX"},
+		[]string{"PERSIST", "k"}, []string{"EXPIRE", "k", "0"}, []string{"PEXPIREAT", "k", "1"}, []string{"EXPIREAT", "k", "4102444800"})
+	add(num, []string{"INCR", "k"}, []string{"DECR", "k"}, []string{"INCRBY", "k", "0"}, []string{"DECRBY", "k", "0"}, []string{"INCRBY", "k", "5"}, []string{"INCRBY", "k", "9223372036854775807"},
+		[]string{"APPEND", "k", "0"}, []string{"SET", "k", "10"})
+	add(ttl, []string{"PERSIST", "k"}, []string{"EXPIRE", "k", "1000"}, []string{"EXPIRE", "k", "2000", "GT"}, []string{"EXPIRE", "k", "2000", "LT"}, []string{"EXPIRE", "k", "10", "NX"},
+		[]string{"SET", "k", "v", "KEEPTTL"}, []string{"GETEX", "k", "PERSIST"}, []string{"APPEND", "k", ""}, []string{"SETRANGE", "k", "0", "v"}, []string{"TTL", "k"})
+	add(lst, []string{"LPUSH", "k", "x"}, []string{"RPUSH", "k", "x"}, []string{"LPUSHX", "k", "x"}, []string{"RPUSHX", "k", "x"}, []string{"LPOP", "k"}, []string{"RPOP", "k"}, []string{"LPOP", "k", "0"},
+		[]string{"LPOP", "k", "10"}, []string{"LSET", "k", "0", "a"}, []string{"LSET", "k", "0", "z"}, []string{"LSET", "k", "-1", "z"}, []string{"LSET", "k", "9", "z"},
+		[]string{"LINSERT", "k", "BEFORE", "b", "n"}, []string{"LINSERT", "k", "AFTER", "nosuch", "n"}, []string{"LREM", "k", "0", "b"}, []string{"LREM", "k", "1", "nosuch"}, []string{"LREM", "k", "-1", "b"},
+		[]string{"LTRIM", "k", "0", "-1"}, []string{"LTRIM", "k", "1", "2"}, []string{"LTRIM", "k", "5", "9"}, []string{"LMOVE", "k", "k", "LEFT", "LEFT"}, []string{"LMOVE", "k", "k", "LEFT", "RIGHT"},
+		[]string{"RPOPLPUSH", "k", "k"}, []string{"LMPOP", "1", "k", "LEFT"}, []string{"LMPOP", "2", "nokey", "k", "RIGHT", "COUNT", "2"}, []string{"BLPOP", "k", "0.01"}, []string{"BRPOP", "nokey", "k", "0.01"},
+		[]string{"BLMOVE", "k", "k", "RIGHT", "LEFT", "0.01"}, []string{"BLMPOP", "0.01", "1", "k", "LEFT"},
+		[]string{"LRANGE", "k", "0", "-1"}, []string{"LPOS", "k", "b"}, []string{"RENAME", "k", "k"}, []string{"COPY", "k", "k", "REPLACE"})
+	add(lst2, []string{"LMOVE", "k", "o", "LEFT", "RIGHT"}, []string{"LMOVE", "o", "k", "LEFT", "RIGHT"}, []string{"RPOPLPUSH", "o", "k"}, []string{"BLMOVE", "o", "k", "LEFT", "LEFT", "0.01"},
+		[]string{"BRPOPLPUSH", "k", "o", "0.01"}, []string{"RENAME", "o", "k"}, []string{"RENAME", "k", "o"}, []string{"RENAMENX", "o", "k"}, []string{"COPY", "o", "k"}, []string{"COPY", "o", "k", "REPLACE"},
+		[]string{"COPY", "k", "o", "REPLACE"}, []string{"LMPOP", "2", "o", "k", "LEFT"})
+	add(hsh, []string{"HSET", "k", "f1", "1"}, []string{"HSET", "k", "f1", "2"}, []string{"HSET", "k", "f3", "3"}, []string{"HSET", "k", "f1", "1", "f2", "x"}, []string{"HSET", "k", "f1", "5", "f3", "6"},
+		[]string{"HMSET", "k", "f1", "1"}, []string{"HMSET", "k", "f1", "7", "f2", "8"}, []string{"HSETNX", "k", "f1", "9"}, []string{"HSETNX", "k", "f9", "9"}, []string{"HDEL", "k", "f1"},
+		[]string{"HDEL", "k", "nofield"}, []string{"HDEL", "k", "f1", "f2"}, []string{"HINCRBY", "k", "f1", "0"}, []string{"HINCRBY", "k", "f1", "3"}, []string{"HINCRBY", "k", "f2", "1"},
+		[]string{"HINCRBY", "k", "fnew", "0"}, []string{"HGETALL", "k"}, []string{"HRANDFIELD", "k"}, []string{"HSTRLEN", "k", "f1"})
+	add(set, []string{"SADD", "k", "m1"}, []string{"SADD", "k", "m9"}, []string{"SADD", "k", "m1", "m9"}, []string{"SREM", "k", "m1"}, []string{"SREM", "k", "nomember"}, []string{"SREM", "k", "m1", "m2"},
+		[]string{"SMOVE", "k", "o", "m1"}, []string{"SMOVE", "k", "o", "m2"}, []string{"SMOVE", "k", "o", "nomember"}, []string{"SMOVE", "o", "k", "m3"}, []string{"SMOVE", "o", "k", "m2"}, []string{"SMOVE", "k", "k", "m1"},
+		[]string{"SINTERSTORE", "k", "k", "o"}, []string{"SINTERSTORE", "k", "k", "k"}, []string{"SUNIONSTORE", "k", "k"}, []string{"SUNIONSTORE", "k", "k", "o"}, []string{"SDIFFSTORE", "k", "k", "nokey"},
+		[]string{"SDIFFSTORE", "k", "k", "k"}, []string{"SDIFFSTORE", "o", "k", "o"}, []string{"SINTERSTORE", "k", "nokey", "o"}, []string{"SINTERCARD", "2", "k", "o"}, []string{"SMEMBERS", "k"})
+	add(oth, []string{"RENAME", "o", "k"}, []string{"RENAME", "k", "o"}, []string{"RENAMENX", "o", "k"}, []string{"RENAMENX", "k", "new"}, []string{"COPY", "o", "k"}, []string{"COPY", "o", "k", "REPLACE"},
+		[]string{"COPY", "k", "o", "REPLACE"}, []string{"BITOP", "XOR", "k", "o", "o"}, []string{"BITOP", "OR", "o", "k", "k"}, []string{"DEL", "o", "k"}, []string{"DEL", "o"}, []string{"MSETNX", "new", "1", "k", "2"},
+		[]string{"FLUSHDB"}, []string{"FLUSHALL"}, []string{"SELECT", "1"})
+	add(none, []string{"SET", "k", "v"}, []string{"SETNX", "k", "v"}, []string{"SET", "k", "v", "XX"}, []string{"APPEND", "k", ""}, []string{"APPEND", "k", "x"}, []string{"SETRANGE", "k", "0", ""}, []string{"SETBIT", "k", "0", "0"},
+		[]string{"INCR", "k"}, []string{"INCRBY", "k", "0"}, []string{"LPUSH", "k", "x"}, []string{"LPUSHX", "k", "x"}, []string{"HSET", "k", "f", "v"}, []string{"HINCRBY", "k", "f", "0"}, []string{"HDEL", "k", "f"},
+		[]string{"SADD", "k", "m"}, []string{"SREM", "k", "m"}, []string{"DEL", "k"}, []string{"RENAME", "o", "k"}, []string{"COPY", "o", "k"}, []string{"SUNIONSTORE", "k", "nokey"}, []string{"BITOP", "NOT", "k", "nokey"},
+		[]string{"EXPIRE", "k", "100"}, []string{"PERSIST", "k"}, []string{"GETDEL", "k"}, []string{"GETSET", "k", "v"}, []string{"LMOVE", "nokey", "k", "LEFT", "LEFT"}, []string{"SMOVE", "nokey", "k", "m"},
+		[]string{"FLUSHDB"}, []string{"BITFIELD", "k", "SET", "u8", "0", "0"}, []string{"BITFIELD", "k", "INCRBY", "u8", "0", "0"})
+	return t
+}
+
 // a command that the server rejects when it is received (unknown, or wrong arity)
 func (g *Gen) rejectedOp(c int) Op {
 	switch g.r.Intn(4) {
@@ -112,6 +180,43 @@ func init() {
 			var ops []Op
 			ops = append(ops, g.seedOps(1)...)
 			ops = append(ops, mkOp(1, "SET", "kstr", "abc"))
+			if i%5 < 2 {
+				// structured: however a transaction ends (run, aborted by a watch, discarded because of a
+				// rejected command, DISCARD, a runtime error inside, EXEC/DISCARD without MULTI), the connection
+				// is back to normal: nothing watched, nothing queued, no error flag — shown by a second
+				// transaction whose formerly watched key is changed by the other connection first
+				k := g.key()
+				ops = append(ops, mkOp(1, g.kw("watch"), k, "kstr"))
+				end := (i/5*2 + i%5) % 7
+				if end == 1 {
+					ops = append(ops, mkOp(2, "APPEND", "kstr", "x")) // the watch will abort the first EXEC
+				}
+				if end != 5 {
+					ops = append(ops, mkOp(1, g.kw("multi")))
+					for j := 0; j < g.r.Intn(3); j++ {
+						ops = append(ops, g.dataOp(1))
+					}
+				}
+				switch end {
+				case 0, 1:
+					ops = append(ops, mkOp(1, g.kw("exec")))
+				case 2:
+					ops = append(ops, g.rejectedOp(1), g.dataOp(1), mkOp(1, g.kw("exec")))
+				case 3:
+					ops = append(ops, mkOp(1, g.kw("discard")))
+				case 4:
+					ops = append(ops, g.runtimeErrOp(1), mkOp(1, g.kw("exec")))
+				case 5:
+					ops = append(ops, mkOp(1, g.pick("EXEC", "DISCARD")), mkOp(1, g.kw("unwatch")))
+				case 6:
+					ops = append(ops, g.rejectedOp(1), mkOp(1, g.kw("discard")))
+				}
+				// back to normal: a plain command runs at once; then the second transaction
+				ops = append(ops, mkOp(1, "INCR", "kcount"), mkOp(2, "APPEND", "kstr", "y"), mkOp(2, "DEL", k))
+				ops = append(ops, mkOp(1, g.kw("multi")), mkOp(1, "INCR", "kcount"), g.dataOp(1), mkOp(1, g.kw("exec")), mkOp(1, "GET", "kcount"))
+				ops = append(ops, g.observeAll(2)...)
+				return History{Ops: ops}
+			}
 			l := 6 + g.r.Intn(30)
 			for j := 0; j < l; j++ {
 				switch x := g.r.Intn(100); {
@@ -154,13 +259,35 @@ func init() {
 	// C10: WATCH scenarios: every kind of command between WATCH and EXEC, on either connection
 	streams["C10"] = func(cfg runCfg, res *Result) error {
 		g := newGen(cfg.seed)
-		n := 250
+		n := 400
 		if cfg.tier == "thorough" {
-			n = 5000
+			n = 6000
 		}
+		table := c10Table()
+		start := g.r.Intn(len(table))
+		res.Extra["single_write_table"] = len(table)
 		return runHistories(cfg, res, n, func(i int) History {
 			var ops []Op
 			g.newHistory()
+			if i%5 < 3 {
+				// systematic: one write of the table, alone between WATCH and EXEC, by either connection
+				tc := table[(start+i/5*3+i%5)%len(table)]
+				for _, a := range tc.setup {
+					ops = append(ops, mkOp(1, a...))
+				}
+				ops = append(ops, mkOp(1, "WATCH", "k"))
+				who := 1 + g.r.Intn(2)
+				if tc.write[0] == "SELECT" {
+					who = 1
+				}
+				ops = append(ops, mkOp(who, tc.write...))
+				ops = append(ops, mkOp(1, "MULTI"), mkOp(1, "SET", "kq", "queued"), mkOp(1, "EXEC"), mkOp(1, "GET", "kq"))
+				for _, k := range []string{"k", "o", "new"} {
+					ops = append(ops, mkOp(2, "TYPE", k), mkOp(2, "PTTL", k))
+				}
+				ops = append(ops, mkOp(2, "GET", "k"), mkOp(2, "LRANGE", "k", "0", "-1"), mkOp(2, "HGETALL", "k"), mkOp(2, "SMEMBERS", "k"))
+				return History{Ops: ops}
+			}
 			ops = append(ops, g.seedOps(1)...)
 			nw := 1 + g.r.Intn(2)
 			w := []string{g.kw("watch")}
